@@ -2,5 +2,5 @@ CONSTANT K = 2
 CONSTANT Complete = TRUE
 INIT Init
 NEXT Next
-INVARIANTS NsSound AcceptOnlyScan HonestIsScan
+INVARIANTS SingleSound SingleOnlyOwn NsSound AcceptOnlyScan HonestIsScan
 CHECK_DEADLOCK FALSE
